@@ -30,6 +30,10 @@ type Config struct {
 	TextAsBytes bool `json:"text_as_bytes"`
 	// BoolAsInt: bools are stored and delivered as int64 0/1 (SQLite style).
 	BoolAsInt bool `json:"bool_as_int"`
+	// TruthyInts (with BoolAsInt): a stored true is delivered as some
+	// non-zero integer (1, -1, 2, 255, the smallest int64), the way a store
+	// without a boolean type keeps whatever integer was written.
+	TruthyInts bool `json:"truthy_ints,omitempty"`
 	// FloatAsText: floats are stored and delivered as decimal text (a NUMERIC
 	// column of a driver that returns text), to be read with StringToFloat.
 	FloatAsText bool `json:"float_as_text"`
@@ -77,6 +81,9 @@ type DB struct {
 	textBuf     []byte
 	committed   bool
 	rolledBack  bool
+	truthy      int
+	// QueryArgs are the arguments of the last query.
+	QueryArgs []driver.Value
 }
 
 func New(cfg Config) *DB {
@@ -179,7 +186,7 @@ func (s *stmt) NumInput() int {
 		return len(ins.Place)
 	}
 	if _, ok := parseSelect(s.q); ok {
-		return 0
+		return strings.Count(s.q, "?")
 	}
 	return -1
 }
@@ -202,6 +209,7 @@ func (s *stmt) Query(args []driver.Value) (driver.Rows, error) {
 	if !ok {
 		return nil, fmt.Errorf("simdb: no such table %q", name)
 	}
+	s.d.QueryArgs = append([]driver.Value{}, args...)
 	return &rows{d: s.d, t: t}, nil
 }
 
@@ -258,6 +266,10 @@ func (d *DB) exec(q string, args []driver.Value, via string) (driver.Result, err
 		if bv, ok := a.(bool); ok && d.Cfg.BoolAsInt {
 			if bv {
 				a = int64(1)
+				if d.Cfg.TruthyInts {
+					d.truthy++
+					a = []int64{1, -1, 2, 255, -1 << 63, 1 << 40}[d.truthy%6]
+				}
 			} else {
 				a = int64(0)
 			}
@@ -454,7 +466,9 @@ func (p *parser) ident() (string, error) {
 
 func parseSelect(q string) (string, bool) {
 	f := strings.Fields(strings.TrimSuffix(strings.TrimSpace(q), ";"))
-	if len(f) == 4 && strings.EqualFold(f[0], "SELECT") && f[1] == "*" && strings.EqualFold(f[2], "FROM") {
+	// an optional WHERE clause with ? placeholders is accepted and ignored
+	// (every row is returned): it only carries query arguments
+	if (len(f) == 4 || len(f) > 5 && strings.EqualFold(f[4], "WHERE")) && strings.EqualFold(f[0], "SELECT") && f[1] == "*" && strings.EqualFold(f[2], "FROM") {
 		return f[3], true
 	}
 	return "", false
